@@ -3075,6 +3075,95 @@ def r9_skip_compares_with_effective_value(ctx, rid):
         ctx.info(rid, ac, ac.node, "adapt_circuit does not skip updates by comparing with a current value", label="no skip decision")
 
 
+
+# --------------------------------------------------------------------------------------------
+# R10 — every output column is read from its own target's backend variable
+# --------------------------------------------------------------------------------------------
+
+def r10_columns_read_from_their_own_backend_variable(ctx, rid):
+    """CircuitTemplate.run maps each requested output (for a sweep: one per swept circuit under `all/...`) to (backend variable,
+    position).  Reading the recording of ONE target's backend variable - `recordings[backend_of[keys[0]]]` - and taking every
+    target's column from it is only correct when all targets share that backend variable (nodes of different structure, or
+    vectorize=False, get variables of their own): such a block read needs a guard that the backend variables of all targets are one
+    and the same."""
+    f0 = ctx.repo.get_func(CIRC, "CircuitTemplate.run")
+    F = syn(ctx, f0)
+    cfg = ctx.cfg(F)
+    # names that hold the backend-variable map returned by get_variable_positions (second element), directly or merged by update()
+    bnames = set()
+    for n in walk_shallow(F.node):
+        if isinstance(n, ast.Assign) and isinstance(n.value, ast.Call) and call_name(n.value) == "get_variable_positions":
+            for t in n.targets:
+                if isinstance(t, ast.Tuple) and len(t.elts) == 2 and isinstance(t.elts[1], ast.Name):
+                    bnames.add(t.elts[1].id)
+    ctx.require(bnames, f"{rid}: run() does not unpack `<positions>, <backend variables> = get_variable_positions(...)` (unrecognised form)")
+    changed = True
+    while changed:
+        changed = False
+        for n in walk_shallow(F.node):
+            if isinstance(n, ast.Call) and isinstance(n.func, ast.Attribute) and n.func.attr == "update" and isinstance(n.func.value, ast.Name) \
+                    and n.args and isinstance(n.args[0], ast.Name) and n.args[0].id in bnames and n.func.value.id not in bnames:
+                bnames.add(n.func.value.id)
+                changed = True
+
+    def picks_one_of_many(k):
+        """`keys[0]`, `list(keys)[0]`, `next(iter(keys))`: one fixed member of a collection of target keys"""
+        k = resolve(ctx, F, k)
+        if isinstance(k, ast.Subscript) and isinstance(k.slice, ast.Constant) and isinstance(k.slice.value, int) and not isinstance(k.value, ast.Constant):
+            return k.value
+        if isinstance(k, ast.Call) and isinstance(k.func, ast.Name) and k.func.id == "next" and k.args:
+            a = k.args[0]
+            return a.args[0] if isinstance(a, ast.Call) and isinstance(a.func, ast.Name) and a.func.id == "iter" and a.args else a
+        return None
+    n_sites = 0
+    for x in ordered(walk_shallow(F.node)):
+        if not (isinstance(x, ast.Subscript) and isinstance(x.ctx, ast.Load) and isinstance(x.value, ast.Name) and x.value.id in bnames):
+            continue
+        coll = picks_one_of_many(x.slice)
+        if coll is None:
+            continue
+        if comp_generator_of_safe(x) is not None and any(isinstance(a, ast.SetComp) for a in ancestors(x)):
+            continue
+        n_sites += 1
+        st = stmt_of(cfg, x)
+        label = f"block read from the backend variable of one target [{norm(st, 70)}]"
+        # guard: len({B[k] for k in keys}) == 1 on the path to the statement
+        guarded = False
+        tests = []
+        cur = st
+        for a in ancestors(st):
+            if isinstance(a, _FUNCS):
+                break
+            if isinstance(a, ast.If) and any(s is cur for s in a.body):
+                tests.append(a.test)
+            if isinstance(a, ast.stmt):
+                cur = a
+        for t in tests:
+            for c in ast.walk(t):
+                if isinstance(c, ast.Compare) and len(c.ops) == 1 and isinstance(c.ops[0], (ast.Eq, ast.LtE, ast.Lt)) and isinstance(c.left, ast.Call) \
+                        and isinstance(c.left.func, ast.Name) and c.left.func.id == "len" and c.left.args \
+                        and isinstance(c.comparators[0], ast.Constant) and c.comparators[0].value in (1, 2):
+                    if isinstance(c.ops[0], ast.Lt) != (c.comparators[0].value == 2):
+                        continue
+                    s = resolve(ctx, F, c.left.args[0])
+                    if isinstance(s, ast.Call) and isinstance(s.func, ast.Name) and s.func.id == "set" and s.args:
+                        s = s.args[0]
+                    elts = [s.elt] if isinstance(s, (ast.SetComp, ast.GeneratorExp, ast.ListComp)) else (list(s.elts) if isinstance(s, ast.Set) else [])
+                    if elts and all(isinstance(e, ast.Subscript) and isinstance(e.value, ast.Name) and e.value.id in bnames for e in elts):
+                        guarded = True
+        if guarded:
+            ctx.ok(rid, f0, st, "the block of one target's backend variable is used for all targets only where all of them map to that one "
+                                "backend variable", label=label)
+        else:
+            ctx.violation(rid, f0, st, f"`{norm(st)}` takes the recording of the backend variable of ONE target (`{norm(x)}`) for every target "
+                          f"of the output, and nothing on the path checks that all targets map to the same backend variable "
+                          f"(`len({{{x.value.id}[k] for k in ...}}) == 1`): targets that were vectorised separately (nodes of different structure) "
+                          f"get the columns of the first target's variable, so a swept circuit's output is another circuit's series", label=label)
+    if n_sites == 0:
+        ctx.info(rid, f0, f0.node, "run() reads every output through its own backend-variable entry (no block read through one target's entry)",
+                 label="no block read")
+
+
 RULES = [
     ("C17-R1", r1_private_copy_uncoupled, 5),
     ("C17-R2", r2_one_key_per_row, 4),
@@ -3085,4 +3174,5 @@ RULES = [
     ("C17-R7", r7_outputs_located_per_node, 2),
     ("C17-R8", r8_override_written_into_unshared_copy, 1),
     ("C17-R9", r9_skip_compares_with_effective_value, 0),
+    ("C17-R10", r10_columns_read_from_their_own_backend_variable, 0),
 ]
